@@ -239,6 +239,10 @@ func d4nPrograms() []*Prog {
 		{nl("lp", 0, -1, false, seq(loop(0, -1, false, capt(a, "x")), b)), nl("lq", 0, 2, false, capt(a, "y"))},
 		{loop(0, -1, false, seq(nl("lp", 1, -1, false, capt(a, "x")), b))},
 		{nl("lp", 1, -1, true, seq(capt(loop(0, -1, true, a), "x"), b)), a},
+		// a named loop that runs several times in one match (inside an unnamed loop), each run with a choice inside
+		{loop(1, -1, false, seq(nl("lp", 1, -1, false, or(seq(capt(a, "x"), b), seq(a, a))), b))},
+		{loop(1, -1, false, seq(nl("lp", 1, -1, true, or(seq(capt(a, "x"), b), a)), b))},
+		{loop(0, -1, false, seq(nl("lp", 0, -1, false, seq(loop(0, 1, false, capt(a, "x")), b)), a))},
 	}
 	var out []*Prog
 	for _, bd := range bodies {
@@ -296,6 +300,10 @@ func d4sPrograms() []*Prog {
 	}
 	for _, bd := range bodies {
 		out = append(out, &Prog{Body: bd})
+	}
+	// a capture that carries the name of a stored pattern: inside the command the name is the capture
+	for _, bd := range [][]*T{{capt(a, "x"), ref("x")}, {capt(or(a, b), "x"), b, ref("x")}, {loop(0, 1, false, capt(b, "x")), a, loop(0, 1, false, ref("x"))}} {
+		out = append(out, &Prog{Defs: []*GDef{{Name: "x", Body: []*T{or(b, seq(a, a))}}}, Body: bd})
 	}
 	// capture in the command, pattern global around it
 	out = append(out, &Prog{Defs: []*GDef{{Name: "p", Body: []*T{or(a, seq(a, b))}}}, Body: []*T{capt(g("p"), "x"), loop(0, 1, false, ref("x"))}})
